@@ -319,8 +319,17 @@ Print Assumptions C04_cli_roundtrip_discharged.
    instance runs: -B32 -BD -BX --content-size on 70 bytes through the FrameC model, decoded by the
    frame specification with the strict block judgment *)
 Example C04_discharged_hypotheses_satisfiable :
-  FrameCTheorems.blk_contract strict_valid blk_raw /\ write_order_contract wr_real.
-Proof. split; [exact blk_raw_contract|exact wr_real_in_order]. Qed.
+  FrameCTheorems.blk_contract strict_valid blk_raw /\ write_order_contract wr_real /\ legacy_blk_contract cblk_lit.
+Proof. split; [exact blk_raw_contract|]. split; [exact wr_real_in_order|exact cblk_lit_contract]. Qed.
+(* -l on 20 bytes with the literal-only block compressor, and the MT pipeline's small-file path *)
+Example C04_legacy_mt_discharged_run :
+  let content := map Z.of_nat (List.seq 0 20) in
+  (let F := legacy_output (c4_block cblk_lit) 1 content in
+   length F = 30%nat /\ stream_decode strict_valid false (S (length F)) [] [] F = Some content) /\
+  (let p := mkFp 0 4 0 1 0 1 1 0 in
+   let F := mt_output c4_header (c4_frame blk_raw) (c4_update blk_raw) p [] content in
+   valid_prefs p content /\ fp_autoFlush p <> 0 /\ stream_decode strict_valid false (S (length F)) [] [] F = Some content).
+Proof. vm_compute. repeat split; try reflexivity; try (intro; discriminate); try (left; reflexivity). Qed.
 Example C04_st_discharged_run :
   let content := map Z.of_nat (List.seq 0 70) in
   exists s, parse_args cli_init [A_B 32; A_BD; A_BX; A_content_size] = Some s /\
